@@ -56,7 +56,14 @@ func (p *h2peer) serve(c net.Conn) {
 		return
 	}
 	rd := v.(*round)
+	if rd.conns != nil {
+		atomic.AddInt32(rd.conns, 1)
+	}
 	c.SetDeadline(time.Now().Add(25 * time.Second))
+	if len(rd.Steps) > 0 {
+		p.serveSteps(c, tc, rd)
+		return
+	}
 	// read the client's frames in the background; signal the first HEADERS with END_HEADERS
 	gotReq := make(chan struct{})
 	readerDone := make(chan struct{})
@@ -125,6 +132,70 @@ func (p *h2peer) serve(c net.Conn) {
 		case <-readerDone:
 		case <-time.After(5 * time.Second):
 		}
+	}
+}
+
+// serveSteps: the peer's writes are triggered by what the client has sent so far
+func (p *h2peer) serveSteps(c net.Conn, tc *net.TCPConn, rd *round) {
+	events := make(chan string, 64)
+	readerDone := make(chan struct{})
+	go func() {
+		defer close(readerDone)
+		pre := make([]byte, 24)
+		if _, err := io.ReadFull(c, pre); err != nil {
+			return
+		}
+		hdr := make([]byte, 9)
+		for {
+			if _, err := io.ReadFull(c, hdr); err != nil {
+				return
+			}
+			n := int(hdr[0])<<16 | int(hdr[1])<<8 | int(hdr[2])
+			if _, err := io.CopyN(io.Discard, c, int64(n)); err != nil {
+				return
+			}
+			t, fl := hdr[3], hdr[4]
+			if (t == 1 || t == 9) && fl&0x4 != 0 {
+				select {
+				case events <- "headers":
+				default:
+				}
+			}
+			if (t == 0 || t == 1) && fl&0x1 != 0 {
+				select {
+				case events <- "endstream":
+				default:
+				}
+			}
+		}
+	}()
+	for _, st := range rd.Steps {
+		if st.Wait != "" {
+			deadline := time.After(5 * time.Second)
+		wait:
+			for {
+				select {
+				case ev := <-events:
+					if ev == st.Wait {
+						break wait
+					}
+				case <-readerDone:
+					return
+				case <-deadline:
+					return
+				}
+			}
+		}
+		if _, err := c.Write(st.Data); err != nil {
+			return
+		}
+	}
+	if tc != nil {
+		tc.CloseWrite()
+	}
+	select {
+	case <-readerDone:
+	case <-time.After(5 * time.Second):
 	}
 }
 
@@ -629,5 +700,52 @@ func genH2Cases(r *hk.Rand, quick bool, add func(*Case)) {
 	}
 	for i, n := 0, map[bool]int{true: 100, false: 6000}[quick]; i < n; i++ {
 		add(genH2Structured(r))
+	}
+	genH2WindowCases(r, quick, add)
+}
+
+// how the peer opens a stream's send window that its SETTINGS had set to zero: the request body
+// is parked until then (awaitFlowControl) and must be sent whichever frame opens the window
+func genH2WindowCases(r *hk.Rand, quick bool, add func(*Case)) {
+	openers := []struct {
+		name string
+		mk   func(sid uint32) []byte
+	}{
+		{"settings", func(sid uint32) []byte { return settingsFrame(4, 65535) }},
+		{"settings-exact", func(sid uint32) []byte { return settingsFrame(4, 11) }},
+		{"settings-small-steps", func(sid uint32) []byte {
+			return cat(settingsFrame(4, 1), settingsFrame(4, 3), settingsFrame(4, 4), settingsFrame(4, 64))
+		}},
+		{"settings-down-up", func(sid uint32) []byte {
+			return cat(settingsFrame(4, 0), settingsFrame(5, 16384), settingsFrame(4, 100))
+		}},
+		{"window-update", func(sid uint32) []byte { return rawFrame(fWindow, 0, sid, u32(65535)) }},
+		{"window-update-small-steps", func(sid uint32) []byte {
+			return cat(rawFrame(fWindow, 0, sid, u32(1)), rawFrame(fWindow, 0, sid, u32(2)), rawFrame(fWindow, 0, sid, u32(100)))
+		}},
+		{"mixed", func(sid uint32) []byte { return cat(settingsFrame(4, 5), rawFrame(fWindow, 0, sid, u32(100))) }},
+		{"settings-with-other-values", func(sid uint32) []byte { return settingsFrame(3, 100, 4, 1000, 6, 1<<20) }},
+	}
+	for _, op := range openers {
+		for _, pre := range []int{0, 1} {
+			sid := uint32(1 + 2*pre)
+			c := &Case{Kind: "h2", Method: "POST", Shape: fmt.Sprintf("h2:window-opened-by-%s-pre%d", op.name, pre), Pre: pre, Expect: "response"}
+			c.Opts = Opts{DisableAutoDecode: true, TimeoutMs: 2000}
+			if r.Chance(30) {
+				c.Opts.Expect100 = true
+			}
+			steps := []H2Step{{Data: cat(settingsFrame(4, 0), settingsAck())}}
+			if pre == 1 {
+				steps = append(steps, H2Step{Wait: "headers", Data: cat(headersFrame(1, okHeaders(hf{"content-length", "2"}), false, true), dataFrame(1, []byte("ok"), true))})
+			}
+			steps = append(steps,
+				H2Step{Wait: "headers", Data: op.mk(sid)},
+				H2Step{Wait: "endstream", Data: cat(headersFrame(sid, okHeaders(hf{"content-length", "4"}), false, true), dataFrame(sid, []byte("done"), true))})
+			for i := range steps {
+				steps[i].Hex = fmt.Sprintf("%x", steps[i].Data)
+			}
+			c.Rounds = []Round{{Steps: steps, End: "fin"}}
+			add(c)
+		}
 	}
 }
